@@ -68,3 +68,11 @@ Definition ts_find_macro (env : ev_env) (tpl name : bytes) : option (list (bytes
   | Some ns => assoc_bytes (ts_macros ns) name
   | None => None
   end.
+
+(* linkMacros: the table every macro of a template carries -- all macros defined in that template, by name;
+   CallMacro copies it into the macro context *)
+Definition ts_sibling_macros (env : ev_env) (tpl : bytes) : list (bytes * (bytes * bytes)) :=
+  match ts_lookup env tpl with
+  | Some ns => map (fun m => (fst m, (tpl, fst m))) (ts_macros ns)
+  | None => []
+  end.
